@@ -42,6 +42,7 @@ def run(ck):
     ck.clause("C08.8", "saveAdditionalOutput writes exactly the rows it is given (no per-query filter)")
     ctx = ck.ctx
     p = ctx.p
+    ck.clause("C08.13", "the second pass re-aligns the fragments against the same references as the first pass received")
     ck.clause("C08.11", "what a mode writes does not hinge on a whole-run condition (is any second-pass row there at all?): the files "
                         "of the modes agree on every input (as C10.10)")
     from ..report import RuleView
@@ -350,8 +351,9 @@ def _aligned_rest(ck, behaviours, execute):
         ck.judge(frag_ok, "C08.3", short(second) + ":fragments", w, "the second pass aligns the unaligned fragments of the "
                  "first-pass rows", found=T.show(qm)[:160] if qm else "None")
         rm = dict(src[3]).get("referenceMaps") if src[0] == "app" else None
-        ck.judge(rm == V("referenceMaps"), "C08.3", short(second) + ":references", w,
-                 "the second pass aligns against the same references", found=T.show(rm) if rm else "None")
+        ck.judge(rm == V("referenceMaps"), "C08.13", short(second) + ":references", w,
+                 "the second pass aligns against the same references", found=T.show(rm) if rm else "None",
+                 required="referenceMaps, as received")
     else:
         marked = any(x[0] == "app" and x[1] == setter.qualname for x in T.subterms(v))
         if not marked:
